@@ -51,7 +51,7 @@ func pointOf(s scalar) ref.Point {
 }
 
 type opCase struct {
-	Op     string `json:"op"` // add, double, mult, basemult, oncurve, laws
+	Op     string `json:"op"`           // add, double, mult, basemult, oncurve, laws
 	K1     scalar `json:"k1,omitempty"` // discrete logs of P, Q, R (hex); "0" = identity
 	K2     scalar `json:"k2,omitempty"`
 	K3     scalar `json:"k3,omitempty"`
@@ -425,7 +425,7 @@ func genOp(t *rapid.T) opCase {
 			rhs := new(big.Int).Mul(yb, yb)
 			rhs.Sub(rhs, big.NewInt(7)).Mod(rhs, K.P)
 			if xr, ok := cubeRoot(rhs); ok {
-				x, y = xr, yb // a genuine curve point with y >= n
+				x, y = xr, yb                     // a genuine curve point with y >= n
 				if rapid.Bool().Draw(t, "xalt") { // the two other cube roots are also solutions
 					x = new(big.Int).Mod(new(big.Int).Mul(x, omega()), K.P)
 				}
